@@ -667,6 +667,43 @@ func (x *Exec) storeLoc(s *State, loc string, v Value) {
 	s.Heap[loc] = v
 }
 
+// Load and Store give rules access to the abstract heap (used by call stubs).
+func (x *Exec) Load(s *State, p Value, t types.Type) Value { return x.load(s, p, t) }
+func (x *Exec) Store(s *State, p Value, v Value)            { x.store(s, p, v) }
+
+// Fresh returns a new opaque symbol for a definition site.
+func (x *Exec) Fresh(s *State, site string) Value { return x.fresh(s, site) }
+
+// OrdOutcomes returns the outcomes of comparing a with b that are still
+// possible in s, oriented as "a ? b" (nil if the pair was never compared).
+func (x *Exec) OrdOutcomes(s *State, aKey, bKey string) []string {
+	flip := false
+	ka, kb := aKey, bKey
+	if ka > kb {
+		ka, kb = kb, ka
+		flip = true
+	}
+	outs := x.Possible(s, "ord("+ka+","+kb+")")
+	if outs == nil {
+		return nil
+	}
+	if !flip {
+		return outs
+	}
+	res := make([]string, len(outs))
+	for i, o := range outs {
+		switch o {
+		case "<":
+			res[i] = ">"
+		case ">":
+			res[i] = "<"
+		default:
+			res[i] = o
+		}
+	}
+	return res
+}
+
 // havoc forgets everything stored under the cell that p points into.
 func (x *Exec) havoc(s *State, p Value, why string) {
 	ptr, ok := p.(Ptr)
@@ -739,7 +776,7 @@ func (x *Exec) nilness(s *State, v Value) int {
 		}
 		if t, ok := v.(*Term); ok {
 			switch t.Op {
-			case "new", "addr", "append", "make":
+			case "new", "addr", "append", "make", "call:fmt.Errorf", "call:errors.New":
 				return 2
 			}
 		}
@@ -1742,6 +1779,10 @@ func (x *Exec) step(s *State, f *Frame, in ssa.Instruction) bool {
 		f.Env[in] = Ptr{Loc: loc, Fresh: true}
 	case *ssa.Store:
 		addr, val := x.val(s, f, in.Addr), x.val(s, f, in.Val)
+		switch av := addr.(type) {
+		case Sym, *Term:
+			addr = Ptr{Loc: "L:" + av.Key()}
+		}
 		if x.Hooks.Store != nil {
 			x.Hooks.Store(x, s, in, addr, val)
 		}
